@@ -26,7 +26,9 @@ VEC = ["scheme", "raw_user", "raw_password", "raw_host", "explicit_port", "raw_p
 DEFAULT = {"http": 80, "https": 443, "ws": 80, "wss": 443, "ftp": 21}
 
 HOSTS = [("reg", "example.com"), ("ipv4", "127.0.0.1"), ("ipv6", "[2001:db8::1]"), ("ipv6zone", "[fe80::1%eth0]"), ("idn", "é.com"), ("dot", "example.com.")]
-UIS = [("none", ""), ("u", "u@"), ("u:", "u:@"), ("u:p", "u:p@"), (":p", ":p@"), (":", ":@")]
+UIS = [("none", ""), ("u", "u@"), ("u:", "u:@"), ("u:p", "u:p@"), (":p", ":p@"), (":", ":@"),
+       # retained userinfo whose escapes must survive byte for byte: delimiters, valid and invalid UTF-8
+       ("esc", "a%40b:c%3Ad%2F@"), ("latin1", "caf%E9:p%FFw@"), ("utf8", "%C3%A9:%E2%82%AC@")]
 PATHS = ["", "/", "/a/b", "/a/b/"]
 QS = ["", "?q=1"]
 FS = ["", "#f"]
